@@ -71,8 +71,27 @@ int main(int argc, char **argv) {
   std::string f3 = writeImage("p3.bin", p3);
   { std::ifstream in("p3.bin", std::ios::binary); std::vector<char> all((std::istreambuf_iterator<char>(in)), std::istreambuf_iterator<char>()); std::ofstream o2("p3s.bin", std::ios::binary); o2.write(all.data(), 44); }
   int a3 = runOn(0xA5, "p3s.bin", 1000, o), b3 = runOn(0x00, "p3s.bin", 1000, o), c3 = runOn(0x5C, "p3s.bin", 1000, o), d3 = runOn(0xA5, "p3.bin", 1000, o);
+  // (4) tracing only adds text: a program that reads two bytes, echoes them to the file stream 256 (simout1) and exits with
+  //     their sum, run with tracing off and on: same exit value, same echoed bytes, same input consumption
+  std::vector<uint8_t> p4 = {0x97, 0, 0, 0, 100, 0, 0, 0,                       // BR +7 ; DATA 100 (sp)
+     0x11, 0x30, 0x82, 0x32, 0xD3,                                               // LDBM 1; LDAC 0; STAI 2 (stream 0); LDAC 2; OPR SVC   -> mem[sp+1] = byte
+     0x11, 0x61, 0x82, 0xE1, 0xE0, 0x30, 0x83, 0x31, 0xD3,                       // LDBM 1; LDAI 1; STAI 2; LDAC 256; STAI 3; LDAC 1; OPR SVC -> write byte to simout1
+     0x11, 0x30, 0x82, 0x32, 0xD3,                                               // second read
+     0x11, 0x61, 0x82, 0x30, 0xD3};                                              // LDBM 1; LDAI 1; STAI 2; LDAC 0; OPR SVC -> exit(second byte)
+  std::string f4 = writeImage("p4.bin", p4);
+  int t_off = 0, t_on = 0; std::string e_off, e_on; long c_off = 0, c_on = 0; bool threw = false;
+  for (int tr = 0; tr < 2; tr++) {
+    remove("simout1");
+    std::istringstream in("Qz!"); std::ostringstream os;
+    int rc = -12345;
+    try { std::unique_ptr<hexsim::Processor> p(new hexsim::Processor(in, os, 100000)); p->setTracing(tr == 1); p->load(f4.c_str()); rc = p->run(); } catch (std::exception &) { threw = true; }
+    in.clear(); long cons = (long)in.tellg(); if (cons < 0) cons = 3;
+    std::ifstream sf("simout1", std::ios::binary); std::string echoed((std::istreambuf_iterator<char>(sf)), std::istreambuf_iterator<char>());
+    if (tr == 0) { t_off = rc; e_off = echoed; c_off = cons; } else { t_on = rc; e_on = echoed; c_on = cons; }
+  }
   std::string why;
-  if (a3 != b3 || a3 != c3 || a3 != d3) why = "exit value of a binary cut short depends on host heap contents";
+  if (threw || t_off != t_on || e_off != e_on || c_off != c_on) why = "enabling tracing changes exit value, echoed bytes or input consumption of a program using the read call";
+  else if (a3 != b3 || a3 != c3 || a3 != d3) why = "exit value of a binary cut short depends on host heap contents";
   else if (a1 != b1) why = "exit value of a program reading an unwritten word differs with host memory";
   else if (a1 != 0) why = "unwritten memory does not read as zero";
   else if (a2 != b2 || a2 != c2) why = "status of a cycle-limited run differs with host memory";
